@@ -24,7 +24,8 @@ pub struct Hooks {
     pub lock: fn(id: usize),
     pub unlock: fn(id: usize),
     pub spawn: fn(name: String, f: Box<dyn FnOnce() + Send + 'static>) -> u64,
-    pub join: fn(handle: u64),
+    /// returns true if the joined thread died of a panic (std's `join` would return `Err`)
+    pub join: fn(handle: u64) -> bool,
     pub sleep: fn(Duration),
     pub now_ns: fn() -> u64,
     pub unix_ns: fn() -> u64,
@@ -106,8 +107,11 @@ pub mod std {
                 match self {
                     JoinHandle::Real(h) => h.join(),
                     JoinHandle::Sim(id, _) => {
-                        (crate::verif::hooks().unwrap().join)(id);
-                        Ok(())
+                        if (crate::verif::hooks().unwrap().join)(id) {
+                            Err(Box::new("simulated thread panicked"))
+                        } else {
+                            Ok(())
+                        }
                     }
                 }
             }
